@@ -198,6 +198,7 @@ CATALOGUE = [
     ("C02", "c02-bundle-const-inlined", SA, "            if producer.signals:\n                # A bundle constant has no single literal that could be inlined\n                entry.should_materialize = True\n                return\n", "", 1, "fire", "C02-R15"),
     ("C12", "c12-no-fanout-conflicts", WR, "                        graph[joining].add(other)\n                        graph[other].add(joining)\n", "                        pass\n", 1, "fire", "C12-R10"),
     ("C02", "c02-gate-lock-by-merge-id", PL, "                        junction = self._wire_merge_junctions.get(node_id)\n", "                        junction = None\n", 1, "fire", "C02-R16"),
+    ("C02", "c02-wildcard-row-uncoloured", PL, "                if source_entity and wired:\n", "                if source_entity and edge_key in self.connection_planner._edge_wire_colors:\n", 1, "fire", "C02-R17"),
     ("C10", "c10-remainder-sign", "dsl_compiler/src/common/int32.py", "    return left - right * trunc_div(left, right)", "    remainder = abs(left) % abs(right)\n    return -remainder if (left < 0) != (right < 0) else remainder", 1, "fire", "C10-R17"),
     ("C11", "c11-remainder-sign", "dsl_compiler/src/common/int32.py", "    return left - right * trunc_div(left, right)", "    remainder = abs(left) % abs(right)\n    return -remainder if (left < 0) != (right < 0) else remainder", 1, "fire", "witness"),
 ]
